@@ -271,7 +271,13 @@ ZOO += [
     ('R3-generate_imu-int-lla-revert', 'C19', 'sim.py', "    lla = np.asarray(lla, dtype=float)\n    if lla.ndim == 1 and velocity_n is None:", "    lla = np.asarray(lla)\n    if lla.ndim == 1 and velocity_n is None:"),
     ('R3-correct_pva-labels-revert', 'C19,C05', 'error_model.py', "        return pd.Series(data=np.hstack((lla, velocity_n, rph)),\n                         index=LLA_COLS + VEL_COLS + RPH_COLS)",
      "        return pd.Series(data=np.hstack((lla, velocity_n, rph)), index=pva.index)"),
-    ('R3-set_pva-labels-revert', 'C02,C19', 'strapdown.py', "        self.trajectory.iloc[-1] = pva[self.trajectory.columns]", "        self.trajectory.iloc[-1] = pva"),
+    ('R3-set_pva-labels-revert', 'C02,C19', 'strapdown.py', "        row = pva[self.trajectory.columns]", "        row = pva"),
+    # round 6 repair reverted: set_pva stores field by field while it is still reading its argument (a rejected call leaves a trace)
+    ('R6-set_pva-atomic-revert', 'C02,C13', 'strapdown.py',
+     "        lla = pva[LLA_COLS]\n        velocity_n = pva[VEL_COLS]\n        mat_nb = transform.mat_from_rph(pva[RPH_COLS])\n        row = pva[self.trajectory.columns]\n"
+     "        self.lla[i] = lla\n        self.velocity_n[i] = velocity_n\n        self.mat_nb[i] = mat_nb\n        self.trajectory.iloc[-1] = row\n",
+     "        self.lla[i] = pva[LLA_COLS]\n        self.velocity_n[i] = pva[VEL_COLS]\n        self.mat_nb[i] = transform.mat_from_rph(pva[RPH_COLS])\n"
+     "        self.trajectory.iloc[-1] = pva[self.trajectory.columns]\n"),
     ('R3-propagate-labels-revert', 'C19', 'error_model.py', "          pva_error[TRAJECTORY_ERROR_COLS].values)", "          pva_error.values)"),
     ('R3-lla-difference-int-revert', 'C16', 'transform.py', "    result = np.empty(diff.shape)", "    result = np.empty_like(diff)"),
     ('R3-nan-slice', 'C17', 'transform.py', "    return Rotation.from_matrix(mat).as_euler('xyz', degrees=True)",
